@@ -2,36 +2,43 @@ import CollectionsC.Properties.C09Queue
 import CollectionsC.Proofs.DequeCross
 /-! # C06 (queue part) — memory safety and leak freedom of the adapter
 
-The queue owns three blocks (its header, the inner deque's header and buffer).  Every statement is for
-every ring layout of the inner deque, every value, every refusal schedule; nothing is partial
+The queue owns three blocks (its header, the inner deque's header and buffer), all on one allocator triple
+(`Queue.Inv` says header and inner deque carry the same triple).  Every statement is for every ring layout
+of the inner deque, every value, every refusal schedule, both triples; nothing is partial
 (`enqueue`/`poll`/`peek` do not reach finding D3). -/
 namespace CC.Properties.C06Queue
 open CC CC.Properties.C09Queue
 
 /-- **(a) nofault + (b) ledger, one step** -/
 theorem step_safe (q : Queue) (m : Mem) (op : Op) (hi : q.Inv) :
-    (stepQ q m op).2.1.Inv ∧ Deque.memSame (stepQ q m op).2.2 m := by
+    (stepQ q m op).2.1.Inv ∧ Deque.memSame q.triple (stepQ q m op).2.2 m ∧ (stepQ q m op).2.1.triple = q.triple := by
   have hsim : Sim q ⟨q.abs.reverse⟩ := ⟨hi, by simp⟩
-  rcases step_refines q ⟨q.abs.reverse⟩ m op hsim with ⟨_, s2, s3⟩ | ⟨_, _, s3, s4, _⟩
-  · exact ⟨s2.1, s3⟩
-  · exact ⟨by rw [s3]; exact hi, s4⟩
+  refine ⟨?_, ?_, step_triple q m op⟩
+  · rcases step_refines q ⟨q.abs.reverse⟩ m op hsim with ⟨_, s2, _⟩ | ⟨_, _, s3, _⟩
+    · exact s2.1
+    · rw [s3]; exact hi
+  · rcases step_refines q ⟨q.abs.reverse⟩ m op hsim with ⟨_, _, s3⟩ | ⟨_, _, _, s4, _⟩
+    · exact s3
+    · exact s4
 
 theorem step_nofault (q : Queue) (m : Mem) (op : Op) (hi : q.Inv) : (stepQ q m op).2.2.fault = m.fault :=
-  (step_safe q m op hi).2.2.1
+  (step_safe q m op hi).2.1.2.1
 
-theorem step_ledger (q : Queue) (m : Mem) (op : Op) (hi : q.Inv) : (stepQ q m op).2.2.live = m.live :=
-  (step_safe q m op hi).2.1
+theorem step_ledger (q : Queue) (m : Mem) (op : Op) (hi : q.Inv) :
+    Deque.liveOf q.triple (stepQ q m op).2.2 = Deque.liveOf q.triple m := by
+  have := (step_safe q m op hi).2.1.1; simpa using this
 
 /-- **lifted to histories**, any interleaving, any refusal schedule -/
 theorem history_nofault (ops : List Op) (q : Queue) (m : Mem) (hi : q.Inv) :
-    (runQ q m ops).2.1.Inv ∧ (runQ q m ops).2.2.fault = m.fault ∧ (runQ q m ops).2.2.live = m.live := by
+    (runQ q m ops).2.1.Inv ∧ Deque.memSame q.triple (runQ q m ops).2.2 m ∧ (runQ q m ops).2.1.triple = q.triple := by
   induction ops generalizing q m with
-  | nil => exact ⟨hi, rfl, rfl⟩
+  | nil => exact ⟨hi, Deque.memSame_refl _ m, rfl⟩
   | cons op ops ih =>
-    obtain ⟨s1, s2⟩ := step_safe q m op hi
+    obtain ⟨s1, s2, s3⟩ := step_safe q m op hi
     obtain ⟨r1, r2, r3⟩ := ih (stepQ q m op).2.1 (stepQ q m op).2.2 s1
     simp only [runQ]
-    exact ⟨r1, by rw [r2, s2.2.1], by rw [r3, s2.1]⟩
+    rw [s3] at r2 r3
+    exact ⟨r1, Deque.memSame_trans r2 s2, r3⟩
 
 /-- iterator and zip iterator of the adapter: no fault, nothing allocated, invariant kept -/
 theorem iterator_safe (it : Deque.Iter) (q q2 : Queue) (x y : Nat) (m : Mem) (hi : q.Inv) (h2 : q2.Inv) :
@@ -40,40 +47,59 @@ theorem iterator_safe (it : Deque.Iter) (q q2 : Queue) (x y : Nat) (m : Mem) (hi
     (Queue.zipNext it q q2 m).2.2.2 = m ∧
     ((Queue.zipReplace it q q2 x y m).2.2.1.Inv ∧ (Queue.zipReplace it q q2 x y m).2.2.2.1.Inv ∧
       (Queue.zipReplace it q q2 x y m).2.2.2.2 = m) := by
-  obtain ⟨_, _, _, n4⟩ := Deque.iterNext_spec it q.d m hi
-  obtain ⟨_, _, _, p4, p5⟩ := Deque.iterReplace_spec it q.d x m hi
-  obtain ⟨_, _, _, z4⟩ := Deque.zipNext_spec it q.d q2.d m hi h2
-  obtain ⟨_, _, _, _, r5, r6, r7⟩ := Deque.zipReplace_spec it q.d q2.d x y m hi h2
-  exact ⟨n4, ⟨p4, p5⟩, z4, ⟨r5, r6, r7⟩⟩
+  obtain ⟨_, _, _, n4⟩ := Deque.iterNext_spec it q.d m hi.1
+  obtain ⟨_, _, _, p4, p5⟩ := Deque.iterReplace_spec it q.d x m hi.1
+  obtain ⟨_, _, _, z4⟩ := Deque.zipNext_spec it q.d q2.d m hi.1 h2.1
+  obtain ⟨_, _, _, _, r5, r6, r7⟩ := Deque.zipReplace_spec it q.d q2.d x y m hi.1 h2.1
+  have t1 : (Deque.iterReplace it q.d x m).2.2.1.triple = q.triple := by rw [Deque.iterReplace_triple]; exact hi.2
+  have t2 : (Deque.zipReplace it q.d q2.d x y m).2.2.1.triple = q.triple := by
+    unfold Deque.zipReplace; split
+    · exact hi.2
+    · exact (Deque.replaceAt_triple q.d x _ m).trans hi.2
+  have t3 : (Deque.zipReplace it q.d q2.d x y m).2.2.2.1.triple = q2.triple := by
+    unfold Deque.zipReplace; split
+    · exact h2.2
+    · exact (Deque.replaceAt_triple q2.d y _ _).trans h2.2
+  exact ⟨n4, ⟨⟨p4, t1⟩, p5⟩, z4, ⟨⟨r5, t2⟩, ⟨r6, t3⟩, r7⟩⟩
 
-/-- **every block is released exactly once**: construct (any configured capacity, any refusal schedule —
-each of the three requests may be the refused one), run any history, destroy: the balance is back at its
-initial value and nothing faulted -/
-theorem destroy_releases_all (confCap : Nat) (m0 : Mem) (ops : List Op) :
-    (∃ q0, (Queue.new confCap m0).2.1 = some q0 ∧
-      ((runQ q0 (Queue.new confCap m0).2.2 ops).2.1.destroy (runQ q0 (Queue.new confCap m0).2.2 ops).2.2).live = m0.live ∧
-      ((runQ q0 (Queue.new confCap m0).2.2 ops).2.1.destroy (runQ q0 (Queue.new confCap m0).2.2 ops).2.2).fault = m0.fault) ∨
-    ((Queue.new confCap m0).2.1 = none ∧ (Queue.new confCap m0).2.2.live = m0.live ∧
-      (Queue.new confCap m0).2.2.fault = m0.fault) := by
-  rcases Queue.new_spec confCap m0 with ⟨_, q0, n2, n3, _, _, n6, n7, _⟩ | ⟨_, n2, n3⟩
+/-- **every block is released exactly once**: construct (any configured capacity, either triple, any
+refusal schedule — each of the three requests may be the refused one), run any history, destroy: both
+balances are back at their initial values, nothing faulted, the other triple saw no event -/
+theorem destroy_releases_all (confCap : Nat) (t : Triple) (m0 : Mem) (ops : List Op) :
+    (∃ q0, (Queue.new confCap t m0).2.1 = some q0 ∧
+      Deque.memSame t ((runQ q0 (Queue.new confCap t m0).2.2 ops).2.1.destroy
+        (runQ q0 (Queue.new confCap t m0).2.2 ops).2.2) m0) ∨
+    ((Queue.new confCap t m0).2.1 = none ∧ Deque.memSame t (Queue.new confCap t m0).2.2 m0) := by
+  rcases Queue.new_spec confCap t m0 with ⟨_, q0, n2, n3, _, _, n6, n7⟩ | ⟨_, n2, n3⟩
   · left
-    obtain ⟨_, h2, h3⟩ := history_nofault ops q0 (Queue.new confCap m0).2.2 n3
-    obtain ⟨g1, g2⟩ := Queue.destroy_ledger (runQ q0 (Queue.new confCap m0).2.2 ops).2.1
-      (runQ q0 (Queue.new confCap m0).2.2 ops).2.2 (by rw [h3, n6]; omega)
-    exact ⟨q0, n2, by rw [g1, h3, n6]; omega, by rw [g2, h2, n7]⟩
-  · exact Or.inr ⟨n2, n3.1, n3.2.1⟩
+    obtain ⟨h1, h2, h3⟩ := history_nofault ops q0 (Queue.new confCap t m0).2.2 n3
+    rw [n6] at h2 h3
+    have hrun : Deque.memRel t 3 (runQ q0 (Queue.new confCap t m0).2.2 ops).2.2 m0 := Deque.memRel_same h2 n7
+    have hd := Queue.destroy_ledger (runQ q0 (Queue.new confCap t m0).2.2 ops).2.1
+      (runQ q0 (Queue.new confCap t m0).2.2 ops).2.2 h1 (by rw [h3]; have := hrun.1; omega)
+    rw [h3] at hd
+    exact ⟨q0, n2, Deque.memD_norm (k := 0) (j := 3) (by simpa using Deque.memD_trans hd hrun)⟩
+  · exact Or.inr ⟨n2, n3⟩
 
 /-- **(c) callbacks**: `cc_queue_foreach` and `cc_queue_destroy_cb` hand each held element to the callback
 exactly once (in iteration order: the log is the abstraction); `destroy_cb` then releases all three
-blocks through the configured triple (Q2) -/
-theorem callbacks_visit_each_once (q : Queue) (m : Mem) (hi : q.Inv) (hlive : 3 ≤ m.live) :
+blocks through the queue's triple (Q2) -/
+theorem callbacks_visit_each_once (q : Queue) (m : Mem) (hi : q.Inv) (hlive : 3 ≤ Deque.liveOf q.triple m) :
     (q.foreach m).1 = q.abs ∧ (q.foreach m).2 = m ∧ (q.destroyCb m).1 = q.abs ∧
-    (q.destroyCb m).2.live = m.live - 3 ∧ (q.destroyCb m).2.fault = m.fault := by
-  obtain ⟨f1, f2⟩ := Deque.foreach_spec q.d m hi
-  obtain ⟨g1, g2⟩ := Deque.destroy_ledger q.d.removeAll m (by omega)
-  obtain ⟨k1, k2, _, _⟩ := Deque.free_of_pos (q.d.removeAll.destroy m) (by omega)
+    Deque.memD q.triple 0 3 (q.destroyCb m).2 m := by
+  obtain ⟨f1, f2⟩ := Deque.foreach_spec q.d m hi.1
+  have htr : q.d.removeAll.triple = q.triple := hi.2
+  have g := Deque.destroy_ledger q.d.removeAll m (by rw [htr]; omega)
+  rw [htr] at g
+  have k := Deque.freeT_ok q.triple (q.d.removeAll.destroy m) (by have := g.1; omega)
   unfold Queue.foreach Queue.destroyCb
   simp only [f2]
-  exact ⟨f1, trivial, f1, by omega, by rw [k2, g2]⟩
+  exact ⟨f1, (by first | rfl | trivial), f1, by simpa using Deque.memD_trans k g⟩
+
+/-- non-vacuity: a default-constructed (C library triple) queue, wrapped and full, grows on `enqueue`
+without touching the configured side -/
+example : (Queue.mk (Deque.mk 2 2 1 1 [12, 11] .libc) .libc).Inv ∧
+    (stepQ (Queue.mk (Deque.mk 2 2 1 1 [12, 11] .libc) .libc) { sched := [true], liveLibc := 3 } (.enqueue 5)).1 =
+      ⟨some .ok, none⟩ := by decide
 
 end CC.Properties.C06Queue
